@@ -54,7 +54,7 @@ from ..term import ESC, Screen, decode, tokenize
 ID = "C19"
 LEVEL = "exploration"
 ENGINE = "E1+E2"
-CAP_S = {"quick": 240, "thorough": 1800}
+CAP_S = {"quick": 600, "thorough": 2400}
 TECHNIQUE = ("bounded-exhaustive enumeration on the real code: every styled line in scope through encoder and two "
              "independent decoders; every chunking of every stream in scope into write()/flush() histories on the real "
              "FileProxy (bare and through Live/Progress redirection), judged after every call by a reference proxy and "
@@ -434,7 +434,6 @@ def stream_sets(tier):
         return [
             ("A", "bare", "L5", 1, 2, 4, 2, ["o"]),
             ("A9", "bare", "L9", 1, 2, 3, 2, ["o"]),
-            ("A9w", "bare", "L9", 1, 2, 4, 0, ["o"]),
             ("B", "bare", "L5", 3, 3, 3, 1, ["o"]),
             ("C", "live", "L9", 1, 2, 3, 1, ["o", "e"]),
             ("D", "progress", "L5", 1, 2, 2, 1, ["o", "e"]),
